@@ -800,8 +800,8 @@ def check_path(run, case, idx, path, deep=False):
             if al.shape != (ln,):
                 fail("attenuation-array", list(al.shape), [ln], "attenuation of a long array has the wrong shape",
                      extra={"n_freqs": ln})
-            elif not np.allclose(al[pick], one, rtol=1e-12, atol=0):
-                j = int(np.argmax(np.abs(al[pick] - one)))
+            elif not _same_factors(al[pick], one):
+                j = int(np.argmax(_factor_gap(al[pick], one)))
                 fail("attenuation-array", [pick[j], float(al[pick[j]])], [pick[j], float(one[j])],
                      "element of attenuation(long array) differs from attenuation of that single frequency",
                      extra={"n_freqs": ln})
@@ -1428,6 +1428,21 @@ def check_history(run, case, idx, kind, fr, k2, fail):
                 fail("history", None, None, "polarisation vectors of a used path object differ from a never-used path",
                      extra=extra)
 
+
+
+def _factor_gap(a, b):
+    """distance between attenuation factors measured in the EXPONENT (a factor exp(-x) carries the rounding of x as a
+    relative error x*eps, so tiny factors cannot be compared at a fixed relative tolerance); both zero = equal"""
+    a = np.asarray(a, dtype=float); b = np.asarray(b, dtype=float)
+    with np.errstate(all="ignore"):
+        la, lb = np.log(a), np.log(b)
+        gap = np.abs(la - lb) / (1.0 + np.abs(lb))
+    gap = np.where((a == 0) & (b == 0), 0.0, gap)
+    return np.where(np.isfinite(gap), gap, np.inf)
+
+
+def _same_factors(a, b, tol=1e-11):
+    return bool(np.all(_factor_gap(a, b) <= tol))
 
 def search(run, deep):
     npaths = run.scale(30, 200) if not deep else 200
